@@ -341,8 +341,9 @@ func (s *Server) keepaliveHandler(ctx context.Context) {
 	}
 }
 
-func (s *Server) NewClientConn(conn io.ReadWriteCloser, remoteAddr string) *ClientConn {
-	clientConn := &ClientConn{
+// newClientConn returns a ClientConn for conn that is not yet known to the client manager.
+func (s *Server) newClientConn(conn io.ReadWriteCloser, remoteAddr string) *ClientConn {
+	return &ClientConn{
 		Icon:       []byte{0, 0}, // TODO: make array type
 		Connection: conn,
 		Server:     s,
@@ -350,6 +351,10 @@ func (s *Server) NewClientConn(conn io.ReadWriteCloser, remoteAddr string) *Clie
 
 		ClientFileTransferMgr: NewClientFileTransferMgr(),
 	}
+}
+
+func (s *Server) NewClientConn(conn io.ReadWriteCloser, remoteAddr string) *ClientConn {
+	clientConn := s.newClientConn(conn, remoteAddr)
 
 	s.ClientMgr.Add(clientConn)
 
@@ -409,8 +414,9 @@ func (s *Server) handleNewConnection(ctx context.Context, rwc io.ReadWriteCloser
 		return fmt.Errorf("error writing login transaction: %w", err)
 	}
 
-	c := s.NewClientConn(rwc, remoteAddr)
-	defer c.Disconnect()
+	// The connection is only added to the client manager once the login has been accepted, so that other
+	// clients never see, or get notified about, a connection that is not logged in.
+	c := s.newClientConn(rwc, remoteAddr)
 
 	encodedPassword := clientLogin.GetField(FieldUserPassword).Data
 	c.Version = clientLogin.GetField(FieldVersion).Data
@@ -444,6 +450,9 @@ func (s *Server) handleNewConnection(ctx context.Context, rwc io.ReadWriteCloser
 	if c.Account == nil {
 		return nil
 	}
+
+	s.ClientMgr.Add(c)
+	defer c.Disconnect()
 
 	if clientLogin.GetField(FieldUserName).Data != nil {
 		if c.Authorize(AccessAnyName) {
